@@ -59,6 +59,9 @@ type Case struct {
 	Value      json.RawMessage `json:"value,omitempty"`
 	GoType     string          `json:"go_type,omitempty"` // leaf: the Go type whose Validate accepted Value (re-run on replay)
 	Signed     bool            `json:"signed,omitempty"`  // Input is a signed envelope: read, validated and written as it stands (signed.go)
+	// kind "kept" (kept.go): the documents the SAME object is edited to, one after the other
+	Steps     []json.RawMessage `json:"steps,omitempty"`
+	StepNames []string          `json:"step_names,omitempty"`
 }
 
 // check is one (schema id, instance) pair to be judged.
